@@ -54,6 +54,84 @@ def projection_case(case, st):
                             observed=got, expected=want), sub, "c09.projection")
 
 
+def long_case(case, cache=None):
+    """graphs beyond the exhaustive scope (17-49 vertices): long paths, cycles, stars and grid graphs
+    with winding active edge sets; one pattern per case, decided on the posted program"""
+    from cspuz import Solver, graph
+
+    n = case["n"]
+    edges = [tuple(e) for e in case["edges"]]
+    key = (n, tuple(edges))
+    if cache is not None and key in cache:
+        q, ids = cache[key]
+    else:
+        s = Solver()
+        flags = s.bool_array(len(edges))
+        graph.active_edges_acyclic(s, flags, c04.make_graph(n, edges))
+        q = encq.Query(s)
+        ids = [v.id for v in flags]
+        if cache is not None:
+            cache.clear()
+            cache[key] = (q, ids)
+    pat = [bool(x) for x in case["pattern"]]
+    want = graphref.edges_acyclic(n, edges, pat)
+    got = q.admits(ids, pat)
+    if got != want:
+        raise Failure(("admits-cycle" if got else "rejects-forest") + "|long", observed=got, expected=want,
+                      detail=dict(n=n, family=case.get("family")))
+    return want
+
+
+def shard_long(arg):
+    from hypothesis import strategies as hs
+    from vlib import winding
+
+    seed, n_cases = arg
+    st = Stats()
+    cache = {}
+
+    @hs.composite
+    def c(draw):
+        fam = draw(hs.sampled_from(["path", "path", "cycle", "star", "grid", "grid"]))
+        if fam in ("path", "cycle"):
+            n = draw(hs.integers(17, 45))
+            edges = [[i, i + 1] for i in range(n - 1)]
+            if fam == "cycle":
+                edges.append([n - 1, 0])
+            pat = [1] * len(edges)
+            for _ in range(draw(hs.sampled_from([0, 0, 0, 1, 2]))):
+                pat[draw(hs.integers(0, len(pat) - 1))] = 0
+            if draw(hs.booleans()):   # vertex ids in another order along the path
+                perm = draw(hs.permutations(list(range(n))))
+                edges = [[perm[u], perm[v]] for u, v in edges]
+        elif fam == "star":
+            n = draw(hs.integers(17, 30))
+            edges = [[0, i] for i in range(1, n)] + [[1, 2]]
+            pat = [1] * (n - 1) + [draw(hs.integers(0, 1))]
+        else:
+            h, w = draw(hs.sampled_from([(5, 5), (6, 6), (4, 8), (7, 7), (3, 12)]))
+            n = h * w
+            edges = [list(e) for e in graphref.grid_edges(h, w)]
+            eid = {tuple(sorted(e)): i for i, e in enumerate(edges)}
+            _, cells = winding.shapes(draw, hs, h, w)
+            pat = [0] * len(edges)
+            for a, b in zip(cells, cells[1:]):
+                k = eid.get(tuple(sorted((a[0] * w + a[1], b[0] * w + b[1]))))
+                if k is not None:
+                    pat[k] = 1
+            if draw(hs.integers(0, 2)) == 0:
+                pat[draw(hs.integers(0, len(pat) - 1))] = 1   # one more edge: may close a cycle
+        return dict(n=n, edges=edges, pattern=pat, family=fam)
+
+    def body(case):
+        want = long_case(case, cache)
+        st.case(canon=case, nontrivial=True, classes=["long", "long:" + case["family"], "long:" + ("forest" if want else "cyclic")],
+                sample=None)
+
+    hyp_search(st, c(), body, seed=seed, max_examples=n_cases, check="c09.long", rounds=2)
+    return st
+
+
 FORMS = ["vars", "negated", "expr", "const", "list"]
 
 
@@ -181,7 +259,11 @@ def run(ctx):
         ctx.stats.merge(r)
     for r in pmap(shard_e2e, [(ctx.seed * 1000 + 40 + i, 80 if quick else 2000) for i in range(8 if quick else 16)]):
         ctx.stats.merge(r)
+    for r in pmap(shard_long, [(ctx.seed * 1000 + 70 + i, 12 if quick else 200) for i in range(8)]):
+        ctx.stats.merge(r)
     cl = ctx.stats.classes
+    ctx.floor("long graphs: forests", cl["long:forest"], 25)
+    ctx.floor("long graphs: cyclic edge sets", cl["long:cyclic"], 5)
     ctx.floor("patterns on graphs with a parallel edge (share)",
               round(cl["graph-with-parallel-edge"] / max(1, cl["projection"]), 3), 0.15)
     ctx.floor("patterns with an active parallel pair", cl["active-parallel-pair"], 500)
@@ -191,6 +273,9 @@ def run(ctx):
 
 def replay(ctx, rep):
     case = rep["case"]
+    if rep.get("check") == "c09.long":
+        long_case(case)
+        return
     if rep.get("check") == "c09.e2e":
         e2e_case(case)
         return
